@@ -1,6 +1,6 @@
 """Configuration of ./check C12 (see cfg/README)."""
 
-PROP = {'drive': ['Metrics'], 'harness_files': ['area_metrics.go', 'area_metrics_os2.go'], 'modules': ['SfntV.Props.C12'],
+PROP = {'drive': ['Metrics'], 'harness_files': ['area_metrics.go', 'area_metrics_os2.go', 'area_metrics_q.go'], 'modules': ['SfntV.Props.C12'],
  'required_theorems': ['C12_hmtx_roundtrip',
                        'C12_hmtx_encode_ok',
                        'C12_hmtx_roundtrip_any_k',
@@ -20,23 +20,38 @@ PROP = {'drive': ['Metrics'], 'harness_files': ['area_metrics.go', 'area_metrics
                        'C12_avgwidth_def',
                        'C12_charrange_def',
                        'C12_fixedpitch_def',
-                       'C12_winmetrics_def'],
+                       'C12_winmetrics_def',
+                       'C12_caret_full',
+                       'C12_caret_clamp',
+                       'C12_bestRat_lowest_terms',
+                       'C12_hmtx_widths_roundtrip',
+                       'C12_widthpdf_def',
+                       'C12_fontbboxpdf_image',
+                       'C12_cff_fractional_extends',
+                       'C12_fixedpitch_written'],
  'areas': [('metrics', 400, 6000)],
  'rule': 'distinct case lines (table field values / table bytes / whole-font glyph lists); non-trivial = at '
          'least two glyphs, or any header-table case',
- 'partial': ['caret slope (float64 in Go): fromAngle/toAngle/bestRationalApproximation are modelled in exact '
-             'rational arithmetic (Model/Caret.lean) and compared with the Go code on integer slope pairs '
-             '(stream metrics.caret); the statement C12_caret_full (result = pair in lowest terms, same '
-             'direction) is a Lean definition, not yet a theorem; the float evaluation itself is not '
-             'proved; the tie class rise=0, run<0 (sign of a float -0 decides) is excluded from the comparison',
-             'writer-side derivations are modelled for integral widths (glyf fonts, CFF fonts with integral '
-             'widths); CFF fonts with fractional widths go through float comparisons (w > 0, |width-w| >= 0.5) '
-             'and int() truncation in makeOS2/makeHmtx/IsFixedPitch, which are not modelled',
+ 'partial': ['caret slope: C12_caret_full is proved for the EXACT-arithmetic model of toAngle/fromAngle/'
+             'bestRationalApproximation (every pair in lowest terms is returned unchanged, every reducible pair '
+             'is reduced); the float64 evaluation of the same expressions in Go (Atan2, Sin, Cos, division) is '
+             'not proved - it is compared with the model on integer slope pairs incl. all extremes (V metrics.caret, '
+             'D metrics.caretrt); the tie class rise=0, run<0 (sign of a float -0 decides) is excluded',
+             'metric queries in PDF units are modelled over exact rationals; theorems cover uniform positive '
+             'font matrices [s 0 0 s 0 0] (FontBBoxPDF image) and matrices without shear product (widths); the '
+             'general matrix is modelled and V-streamed (dyadic matrices, exact in float64) but has no image '
+             'theorem; CID-keyed CFF fonts (per-FD matrices), WidthsMapPDF and GlyphWidth are not modelled',
+             'float evaluation of the queries is compared after rounding to 2^-20; near-ties are detected with '
+             'exact arithmetic in the harness and sent as diagnostics only',
+             'fractional CFF widths: the writer model (int(w), funit.Int16(w), |width-w| >= 0.5) is V-streamed '
+             '(metrics.wcffq) and proved to extend the integral model; there is no separate spec fold for the '
+             'fractional IsFixedPitch (the code IS the definition: within 0.5 of the first non-zero width)',
              'the decoding of the installed cmap (so that CodeRange ranges over exactly the mapped codes) is '
              "C09's business; codes mapped to glyph 0 are avoided by the generators",
-             'PDF-unit queries (WidthsPDF, GlyphBBoxPDF, FontBBoxPDF) use floats and are not covered',
              'post version 2.0 (glyph names) belongs to C14; the model covers versions 1.0/3.0/4.0'],
- 'modelled_not_verified': ['encoding/binary.Read/Write of fixed-size structs re-implemented in Lean '
+ 'modelled_not_verified': ['Proofs/MetricsQueries.lean imports Mathlib tactic modules (ring, linarith, field_simp) '
+                           'for the Rat reasoning; axioms stay within the three standard ones',
+                           'encoding/binary.Read/Write of fixed-size structs re-implemented in Lean '
                            '(big-endian field packing) and compared by byte-exact correspondence',
                            'time.Time reduced to (Unix seconds, nanoseconds); time.Unix/IsZero semantics '
                            'as documented by package time',
